@@ -394,6 +394,7 @@ Definition apply_meth (m : meth) (obj : val) (args : list val) : R val :=
   | MStrip, VStr s, [] => if ascii s then Val (VStr (strip_ws s)) else Exc Unmodelled
   | MIsdigit, VStr s, [] => if ascii s then Val (VBool (plain_digits s)) else Exc Unmodelled
   | MEncodeAscii, VStr s, [] => if ascii s then Val (VBytes s) else Exc Unmodelled
+  | MEncodeUtf8, VStr s, [] => match utf8_encode s with Some b => Val (VBytes b) | None => Exc Unmodelled end
   | MFormat, VStr t, args => let! r := format_go t args in Val (VStr r)
   | _, _, _ => Exc Unmodelled
   end.
